@@ -71,7 +71,7 @@ func c20AcceptsIffMatch(fn *ssa.Function, field string) (bool, string) {
 		return false, fmt.Sprintf("%d MatchString calls", len(ms))
 	}
 	// the subject is the receiver's field
-	res := sxPaths(fn)
+	res := c20Paths(fn)
 	if res.Err != "" {
 		return false, res.Err
 	}
